@@ -5,7 +5,7 @@ C14 driver.  One request:
 
   run <flags> <base> <ops>
 
-flags = 5 letters T/F: git, dataByTreePath, execByTreePath, childrenGet, cancelGuarded
+flags = 6 letters T/F: git, dataByTreePath, execByTreePath, childrenGet, cancelGuarded, loopGuarded
 base  = entries joined by `;`: `parent|name|kind|data|exec|fid`
         (parent `~` or a number; name `-` = empty; kind f/d/l/~; data token or `-`; exec T/F; fid token or `~`)
 ops   = joined by `;` (`-` = none):
@@ -61,8 +61,8 @@ def parseOp (s : String) : Option Op :=
 
 def parseFlags (s : String) : Option Flags :=
   match s.toList.map (fun c => parseBool (String.singleton c)) with
-  | [some a, some b, some c, some d, some e] =>
-    some { git := a, dataByTreePath := b, execByTreePath := c, childrenGet := d, cancelGuarded := e }
+  | [some a, some b, some c, some d, some e, some f] =>
+    some { git := a, dataByTreePath := b, execByTreePath := c, childrenGet := d, cancelGuarded := e, loopGuarded := f }
   | _ => none
 
 def Err.show : Err → String
